@@ -1,6 +1,8 @@
 package types
 
 import (
+	"fmt"
+
 	epochstypes "github.com/ExocoreNetwork/exocore/x/epochs/types"
 	sdk "github.com/cosmos/cosmos-sdk/types"
 	paramtypes "github.com/cosmos/cosmos-sdk/x/params/types"
@@ -40,5 +42,11 @@ func (p *Params) ParamSetPairs() paramtypes.ParamSetPairs {
 
 // Validate validates the set of params
 func (p Params) Validate() error {
+	// the fee allocation, which runs in BeginBlock, hands the share 1 - CommunityTax to the
+	// validators and the rest to the community pool; outside [0, 1] one of the two is negative,
+	// which panics. An unset tax is stored (and read back) as zero.
+	if !p.CommunityTax.IsNil() && (p.CommunityTax.IsNegative() || p.CommunityTax.GT(sdk.OneDec())) {
+		return fmt.Errorf("community tax must be between 0 and 1: %s", p.CommunityTax)
+	}
 	return nil
 }
